@@ -51,12 +51,12 @@ CHECKS["C04"] = dict(
 CHECKS["C18"] = dict(
     jobs=[
         dict(pkg="pkg/jitterbuffer", entry="HC18Ops", params=dict(min=2, ops=4, span=3), flags=["-unwindviol", "-unwind", "40"],
-             thorough=dict(params=dict(ops=6, span=4), timeout=3400)),
+             thorough=dict(params=dict(ops=5, span=4), timeout=3400)),
         dict(pkg="pkg/jitterbuffer", entry="HC18Ops", params=dict(min=1, ops=4, span=3), flags=["-unwindviol", "-unwind", "40"],
-             thorough=dict(params=dict(ops=6, span=4), timeout=3400)),
+             thorough=dict(params=dict(ops=5, span=4), timeout=3400)),
     ],
     bounds=dict(quick="JitterBuffer from New(min start 1|2), 4 operations chosen symbolically from {Push, Pop, PopAtSequence, PeekAtSequence, Clear}, sequence numbers base+0..3 for any 16-bit base (wrap included), distinct packet objects; list loops bounded by 40 iterations (excess = loop-forever violation)",
-                thorough="6 operations, span 4"),
+                thorough="5 operations, span 4 (6 operations: not finished in 20 minutes)"),
     outside=["more than 6 operations", "PopAtTimestamp/Peek(bool)/SetPlayoutHead", "event listeners", "the receiver interceptor wrapper"],
     assumptions=["sync.Mutex engine primitive", "pointer identity is concrete in the engine"],
 )
